@@ -36,7 +36,7 @@ def canon(view, t, depth=0):
             inner = canon(view, t[3][0], depth + 1)
             if inner[0] == "next":
                 return ("field", inner, "Some", "0")
-        return ("call", t[1], b, tuple(canon(view, a, depth + 1) for a in t[3]))
+        return ("call", t[1], t[2], tuple(canon(view, a, depth + 1) for a in t[3]))
     if k == "field":
         return ("field", canon(view, t[1], depth + 1), t[2], t[3])
     if k in ("cast",):
@@ -49,6 +49,16 @@ def canon(view, t, depth=0):
 def finding(rule, view, what, bb, detail=""):
     at = view.blocks[bb]["term"].get("at", "") if bb is not None else ""
     return Finding(rule, view.b.path, what, at, detail)
+
+
+def call_name(view, t):
+    """generic-erased, crate-normalised def path of the callee of a ('call', bb, ..) term"""
+    c = view.callee(t[1]) if t[0] == "call" else None
+    if c is None or c.fn is None:
+        return None
+    if c.trait is not None:
+        return npath(erase_generics(c.trait)) + "::" + (c.name or "")
+    return npath(erase_generics(c.path))
 
 
 def fmt(t, depth=0):
